@@ -48,8 +48,12 @@ def menu(doc, reduced=False):
 
 
 def bounds(tier, seed):
-    return {"docs": len(docs()), "len1": "full menu", "len2": "2 docs + 1 chosen by VERIF_SEED: full first op x reduced second op" if tier == "quick" else "full x full on 4 docs, full x reduced on the rest",
-            "len3": "none" if tier == "quick" else "reduced menu on 4 docs"}
+    return {"docs": len(docs()), "len1": "full menu", "len2": "2 docs + 1 chosen by VERIF_SEED: full first op x reduced second op" if tier == "quick" else "full x full on all docs",
+            "len3": "none" if tier == "quick" else "reduced menu on the 5 smallest docs (%s)" % (L3_DOCS,)}
+
+
+# length-3 lists are cubic in the menu: the documents whose reduced menus keep a shard far below the CPU budget
+L3_DOCS = (4, 5, 7, 8, 9)
 
 
 def plan(tier, seed):
@@ -59,15 +63,15 @@ def plan(tier, seed):
         shards.append(("L1", i))
         if tier == "thorough" or i < 2:
             for k in range(16):
-                shards.append(("L2", i, k, 16, tier == "thorough" and i < 4))
+                shards.append(("L2", i, k, 16, tier == "thorough"))
     if tier == "quick":
         i = 2 + seed % (nd - 2)
         for k in range(16):
             shards.append(("L2", i, k, 16, False))
     else:
-        for i in range(4):
-            for k in range(16):
-                shards.append(("L3", i, k, 16))
+        for i in L3_DOCS:
+            for k in range(48):
+                shards.append(("L3", i, k, 48))
     shards.append(("OPT",))
     return shards
 
